@@ -24,7 +24,6 @@ Definition from_lv (d : lv) : mg nat :=
              (flat_map (fun l => pairs (lsuccs d l)) (filter (fun v => mem v (llat d)) (lnodes d))).
 
 (* ---- simplification ---- *)
-Definition is_nil {T} (l : list T) : bool := match l with [] => true | _ => false end.
 Definition prime (n : nat) : nat := S n.   (* the harness encodes "<name>_prime" as name+1 *)
 
 Definition lv_remove_nodes (d : lv) (S : list nat) : lv :=
